@@ -1,3 +1,4 @@
+import Std.Data.HashMap
 /-
 C16 — character-level model of the fixed-column structure-file writers and
 readers of vermouth:
@@ -364,16 +365,21 @@ def molStarts (start : Nat) : List Mol → List Nat
   | [] => []
   | m :: ms => start :: molStarts (start + m.atoms.length + 1) ms
 
-/-- `nodeidx2atomid[(mol_idx, key)]` for one molecule -/
-def serialOf (start : Nat) (sn : List Atom) (key : Int) : Option Nat :=
-  match sn with
-  | [] => none
-  | a :: rest => if a.key = key then some start else serialOf (start + 1) rest key
+/-- `nodeidx2atomid[(mol_idx, key)]` for one molecule: a dictionary key ↦ serial -/
+def serialTable (start : Nat) (sn : List Atom) : Std.HashMap Int Nat :=
+  (sn.foldl (fun (acc : Std.HashMap Int Nat × Nat) a => (acc.1.insert a.key acc.2, acc.2 + 1))
+    (Std.HashMap.emptyWithCapacity sn.length, start)).1
+
+/-- adjacency `molecule[key]` from the edge list -/
+def adjacency (edges : List (Int × Int)) : Std.HashMap Int (List Int) :=
+  edges.foldl (fun acc e =>
+      let acc := acc.insert e.1 (e.2 :: (acc.get? e.1).getD [])
+      acc.insert e.2 (e.1 :: (acc.get? e.2).getD []))
+    (Std.HashMap.emptyWithCapacity edges.length)
 
 /-- neighbours of `k` with a larger key -/
-def upperNbrs (edges : List (Int × Int)) (k : Int) : List Int :=
-  edges.filterMap fun e =>
-    if e.1 = k ∧ k < e.2 then some e.2 else if e.2 = k ∧ k < e.1 then some e.1 else none
+def upperNbrs (adj : Std.HashMap Int (List Int)) (k : Int) : List Int :=
+  ((adj.get? k).getD []).filter fun n => k < n
 
 /-- `while todo: current, todo = todo[:n], todo[n:]` -/
 def chunks (n : Nat) (l : List Nat) : List (List Nat) :=
@@ -391,12 +397,13 @@ def conectLine (L : PdbLayout) (ids : List Nat) : List Char :=
   L.conectPrefix ++ ids.flatMap (fun (i : Nat) => renderField L.conectNum (.int (i : Int)))
 
 def molConectLines (L : PdbLayout) (start : Nat) (m : Mol) : Except Err (List (List Char)) :=
-  let sn := sortedNodes m
+  let tbl := serialTable start (sortedNodes m)
+  let adj := adjacency m.edges
   m.atoms.foldr (fun a acc => do
       let rest ← acc
-      let own ← match serialOf start sn a.key with | some s => pure s | none => throw Err.keyerror
-      let ids ← (upperNbrs m.edges a.key).mapM (fun k =>
-          match serialOf start sn k with | some s => pure s | none => throw Err.keyerror)
+      let own ← match tbl.get? a.key with | some s => pure s | none => throw Err.keyerror
+      let ids ← (upperNbrs adj a.key).mapM (fun k =>
+          match tbl.get? k with | some s => pure s | none => throw Err.keyerror)
       let todo := ids.mergeSort natLe
       pure ((chunks L.conectChunk todo).map (fun c => conectLine L (own :: c)) ++ rest))
     (.ok [])
@@ -523,26 +530,23 @@ def conectIds (L : PdbLayout) (line : List Char) : Except Err (List Int) :=
   else conectGo L.conectWidth line (stripR line).length (stripR line).length L.conectStart
 
 /-- `{atomid: idx}` dictionary of a molecule: the LAST atom with a given serial wins -/
-def idxOfId (mol : List PAtom) (id : Int) : Option Nat :=
-  let rec go (i : Nat) (l : List PAtom) (found : Option Nat) : Option Nat :=
-    match l with
-    | [] => found
-    | a :: r => go (i + 1) r (if a.atomid = id then some i else found)
-  go 0 mol none
+def idTable (mol : List PAtom) : Std.HashMap Int Nat :=
+  (mol.foldl (fun (acc : Std.HashMap Int Nat × Nat) a => (acc.1.insert a.atomid acc.2, acc.2 + 1))
+    (Std.HashMap.emptyWithCapacity mol.length, 0)).1
 
 /-- first molecule that knows serial `id`, with the node index -/
-def findMol (mols : List (List PAtom)) (id : Int) : Option (Nat × Nat) :=
-  let rec go (mi : Nat) (l : List (List PAtom)) : Option (Nat × Nat) :=
+def findMol (tables : List (Std.HashMap Int Nat)) (id : Int) : Option (Nat × Nat) :=
+  let rec go (mi : Nat) (l : List (Std.HashMap Int Nat)) : Option (Nat × Nat) :=
     match l with
     | [] => none
-    | m :: r => match idxOfId m id with
+    | m :: r => match m.get? id with
       | some i => some (mi, i)
       | none => go (mi + 1) r
-  go 0 mols
+  go 0 tables
 
 /-- `_do_single_conect` as long as both atoms are in the same molecule; a CONECT between two
 molecules (which the writer never emits: it makes the reader merge them) is not modelled. -/
-def singleConect (mols : List (List PAtom)) (ids : List Int) : Except Err (List (Nat × Nat × Nat)) :=
+def singleConect (mols : List (Std.HashMap Int Nat)) (ids : List Int) : Except Err (List (Nat × Nat × Nat)) :=
   match ids with
   | [] => .error .indexerror
   | id0 :: others =>
@@ -556,7 +560,7 @@ def singleConect (mols : List (List PAtom)) (ids : List Int) : Except Err (List 
           | some (m1, i1) => if m1 = m0 then pure ((m0, i0, i1) :: rest) else throw Err.unmodelled)
         (.ok [])
 
-def doConect (L : PdbLayout) (mols : List (List PAtom)) : List (List Char) → Except Err (List (Nat × Nat × Nat))
+def doConect (L : PdbLayout) (mols : List (Std.HashMap Int Nat)) : List (List Char) → Except Err (List (Nat × Nat × Nat))
   | [] => .ok []
   | l :: ls => do
       let ids ← conectIds L l
@@ -575,7 +579,7 @@ def readPdb (L : PdbLayout) (exclude : List (List Char)) (ignh : Bool) (lines : 
   let st ← pdbFold L exclude ignh ⟨[], [], []⟩ lines
   let st := st.finish
   let mols := st.mols.reverse
-  let bonds ← doConect L mols st.conects.reverse
+  let bonds ← doConect L (mols.map idTable) st.conects.reverse
   pure ⟨mols, bonds⟩
 
 /-! ### GRO -/
